@@ -74,6 +74,14 @@ pub fn exec(store: &mut HashMap<String, MarkerTree>, cmd: &str) -> String {
             let dl = dnf.iter().map(|c| c.iter().map(expr_line).collect::<Vec<_>>().join(" & ")).collect::<Vec<_>>().join(" | ");
             format!("{}\x1f{}\x1f{}", dump(m), m.try_to_string().map(|t| hex(&t)).unwrap_or("none".into()), dl)
         }
+        // `dj a b`: is_disjoint both ways, is_true / is_false of the conjunction
+        "dj" => {
+            let (a, b) = (&store[p[1]], &store[p[2]]);
+            let (d1, d2) = (a.is_disjoint(b), b.is_disjoint(a));
+            let mut c = a.clone();
+            c.and(b.clone());
+            format!("{}{}{}{}", d1 as u8, d2 as u8, c.is_false() as u8, c.is_true() as u8)
+        }
         "rel" => {
             let (a, b) = (&store[p[1]], &store[p[2]]);
             let c = match a.cmp(b) { std::cmp::Ordering::Less => "lt", std::cmp::Ordering::Equal => "eq", std::cmp::Ordering::Greater => "gt" };
@@ -94,6 +102,7 @@ pub fn worker_hist() {
 pub fn worker_threads() {
     crate::worker::serve(&|line: &str| {
         let p: Vec<&str> = line.split(' ').collect();
+        if p[0] == "contend" { return contend(p[1].parse().unwrap(), unhex(p[2]).split(';').map(|s| s.to_string()).collect(), p[3].parse().unwrap(), p[4].parse().unwrap(), p[5]); }
         let n: usize = p[1].parse().unwrap();
         let script: Vec<String> = unhex(p[2]).split(';').map(|s| s.to_string()).collect();
         let (tx, rx) = std::sync::mpsc::channel();
@@ -141,6 +150,78 @@ pub fn worker_threads() {
     });
 }
 
+
+/// `contend <n> <hex script> <k> <rounds> <salt>`: one thread performs LONG single interner operations (the
+/// disjunction of k conjunctions `extra == a_i and extra == b_i` with every a before every b has ~2^k nodes, so
+/// the last `or` calls hold the lock for a long time) while n threads keep repeating the script; every repetition
+/// must give the transcript the script gave sequentially before the threads started.
+/// Answers `ok <repetitions>` | `diff <hex cmd> <hex expected> <hex got> <repetition>` | `deadlock` | `panic`
+fn contend(n: usize, script: Vec<String>, k: usize, rounds: usize, salt: &str) -> String {
+    let mut store = HashMap::new();
+    let expected: Vec<String> = script.iter().map(|c| exec(&mut store, c)).collect();
+    let done = std::sync::Arc::new(std::sync::atomic::AtomicBool::new(false));
+    let (tx, rx) = std::sync::mpsc::channel();
+    let barrier = std::sync::Arc::new(std::sync::Barrier::new(n + 1));
+    {
+        let (done, barrier, tx, salt) = (done.clone(), barrier.clone(), tx.clone(), salt.to_string());
+        std::thread::spawn(move || {
+            let r = std::panic::catch_unwind(std::panic::AssertUnwindSafe(|| {
+                barrier.wait();
+                for round in 0..rounds {
+                    let mut m = MarkerTree::from_str(&format!("extra == 'h{salt}r{round}a00' and extra == 'h{salt}r{round}b00'")).unwrap();
+                    for i in 1..k {
+                        m.or(MarkerTree::from_str(&format!("extra == 'h{salt}r{round}a{i:02}' and extra == 'h{salt}r{round}b{i:02}'")).unwrap());
+                    }
+                    assert!(!m.is_true() && !m.is_false());
+                }
+            }));
+            done.store(true, std::sync::atomic::Ordering::SeqCst);
+            let _ = tx.send(if r.is_ok() { "heavy-ok".to_string() } else { "panic".to_string() });
+        });
+    }
+    for _ in 0..n {
+        let (done, barrier, tx, script, expected) = (done.clone(), barrier.clone(), tx.clone(), script.clone(), expected.clone());
+        std::thread::spawn(move || {
+            let r = std::panic::catch_unwind(std::panic::AssertUnwindSafe(|| {
+                barrier.wait();
+                let mut reps = 0usize;
+                loop {
+                    let finished = done.load(std::sync::atomic::Ordering::SeqCst);
+                    // odd repetitions: the whole script (parsing and combining queue behind the long operation);
+                    // even ones: only the queries on markers this thread already holds, back to back
+                    let mut store = HashMap::new();
+                    for (c, want) in script.iter().zip(expected.iter()) {
+                        let got = exec(&mut store, c);
+                        if got != *want { return format!("diff {} {} {} {reps}", hex(c), hex(want), hex(&got)); }
+                    }
+                    reps += 1;
+                    for _ in 0..3 {
+                        for (c, want) in script.iter().zip(expected.iter()) {
+                            if !(c.starts_with("dj ") || c.starts_with("rel ") || c.starts_with("obs ")) { continue; }
+                            let got = exec(&mut store, c);
+                            if got != *want { return format!("diff {} {} {} {reps}", hex(c), hex(want), hex(&got)); }
+                        }
+                        reps += 1;
+                    }
+                    if finished { return format!("ok {reps}"); }
+                }
+            }));
+            let _ = tx.send(r.unwrap_or_else(|_| "panic".to_string()));
+        });
+    }
+    let mut reps = 0usize;
+    let mut bad: Option<String> = None;
+    for _ in 0..n + 1 {
+        match rx.recv_timeout(std::time::Duration::from_secs(120)) {
+            Ok(r) => {
+                if let Some(x) = r.strip_prefix("ok ") { reps += x.parse::<usize>().unwrap_or(0); }
+                else if r != "heavy-ok" && bad.is_none() { bad = Some(r); }
+            }
+            Err(_) => return "deadlock".into(),
+        }
+    }
+    bad.unwrap_or(format!("ok {reps}"))
+}
 
 /// Sibling markers: the same root test above *different non-terminal* sub-markers.  Their order must be
 /// the order of the sub-markers themselves, whichever of those happened to be created first.
@@ -303,6 +384,30 @@ pub fn run(out: &mut Out, tier: &str, seed: u64, prop: &str) {
                 let mut line = format!("iand\tL {}\tL {}", a.dump, b.dump);
                 for w in &warm { line.push_str(&format!("\tL {}", w.dump)); }
                 out.case(line, format!("{}\teq=1\thit=1\tcomm=1\tfresh=1\tinj=1", dump(&x)));
+                // the other id-level operations on a warmed arena: restrict (simplify_extras) after restrictions under
+                // other extras, negation, is_disjoint
+                let all = ["dev", "test", "foo-bar", "a", "b", "x-y"];
+                let names: Vec<&str> = all.iter().copied().filter(|_| rng.below(3) == 0).collect();
+                let ns: Vec<pep508_rs::ExtraName> = names.iter().map(|n| pep508_rs::ExtraName::from_str(n).unwrap()).collect();
+                let r = a.tree.clone().simplify_extras(&ns);
+                let dj = (a.tree.is_disjoint(&b.tree), b.tree.is_disjoint(&a.tree));
+                let mut line = format!("iops\t{}", names.len());
+                for n in &names { line.push_str(&format!("\t{}", hex(n))); }
+                line.push_str(&format!("\tL {}\tL {}", a.dump, b.dump));
+                for w in &warm { line.push_str(&format!("\tL {}", w.dump)); }
+                out.case(line, format!("{}\teq=1\tagain=1\tfresh=1\tnot=1\tdisj={}{}\ttree={}", dump(&r), dj.0 as u8, dj.1 as u8, dj.0 as u8));
+                out.stat(if names.is_empty() { "c14.iops_no_extras" } else { "c14.iops_with_extras" });
+                // requires-python surgery on ids, after the warm-up diagrams went through it under other ranges
+                let pl = pools();
+                let (lo, hi) = (gen_bd(&mut rng, &pl), gen_bd(&mut rng, &pl));
+                let is_sp = rng.chance(1, 2);
+                let (l, h) = (bound(&lo), bound(&hi));
+                let r = std::panic::catch_unwind(std::panic::AssertUnwindSafe(|| if is_sp { a.tree.clone().simplify_python_versions(l.as_ref(), h.as_ref()) } else { a.tree.clone().complexify_python_versions(l.as_ref(), h.as_ref()) }));
+                let Ok(r) = r else { out.oracle_fail("C14", "panic in simplify / complexify_python_versions", serde_json::json!({"marker": a.term.line(), "lo": bd_tok(&lo), "hi": bd_tok(&hi)})); return };
+                let mut line = format!("ipy\t{}\t{}\t{}\tL {}", if is_sp { "s" } else { "c" }, bd_tok(&lo), bd_tok(&hi), a.dump);
+                for w in &warm { line.push_str(&format!("\tL {}", w.dump)); }
+                out.case(line, format!("{}\teq=1\tagain=1\tfresh=1", dump(&r)));
+                out.stat(if is_sp { "c14.ipy_simplify" } else { "c14.ipy_complexify" });
             }
             // (2) fresh-process histories
             let rounds = if big { 40 } else { 10 };
@@ -442,6 +547,7 @@ pub fn run(out: &mut Out, tier: &str, seed: u64, prop: &str) {
                     format!("cp o a e3.{} e3.{}", 5 + round % 7, 5 + round % 7), "cp q c i3.12 i3.8".into(), "cp r f i3.8 u".into(), "and s l r".into()]);
                 for n in ["a", "e", "f", "h", "i", "j", "k", "l", "m", "n", "o", "q", "r", "s"] { script.push(format!("obs {n}")); }
                 for (a, b) in [("e", "f"), ("h", "k"), ("i", "j"), ("a", "a")] { script.push(format!("rel {a} {b}")); }
+                for (a, b) in [("a", "d"), ("e", "g"), ("l", "r"), ("b", "c"), ("h", "j")] { script.push(format!("dj {a} {b}")); }
                 let hx = hex(&script.join(";"));
                 for n in [2usize, 8, 16] {
                     out.evaluations += 1;
@@ -465,6 +571,34 @@ pub fn run(out: &mut Out, tier: &str, seed: u64, prop: &str) {
                     }
                     if unhex(digest).contains("panic") { out.oracle_fail("C15", "a thread panicked", input.clone()); }
                     out.nontrivial(format!("{round}.{n}"));
+                }
+            }
+            // contention: queries while another thread is inside long single operations (the lock must span each
+            // operation and a waiting reader must still get the sequential answer)
+            for round in 0..(if big { 4 } else { 1 }) {
+                let salt = format!("c{seed}x{round}");
+                let q: Vec<(String, String)> = vec![
+                    ("a".into(), format!("sys_platform == 'linux' and python_version >= '3.{}'", 8 + round)),
+                    ("b".into(), format!("sys_platform == 'win32' and python_version >= '3.{}'", 8 + round)),
+                    ("c".into(), format!("os_name == '{salt}' or python_full_version < '3.{}'", 9 + round)),
+                    ("d".into(), format!("python_full_version >= '3.{}' and extra == '{salt}'", 9 + round)),
+                ];
+                let mut script = script_for(&q, &["and e a c".into(), "or f b d".into(), "not g e".into()]);
+                for (x, y) in [("a", "b"), ("b", "a"), ("c", "d"), ("e", "g"), ("a", "e"), ("f", "a")] { script.push(format!("dj {x} {y}")); }
+                for n in ["a", "e", "f"] { script.push(format!("obs {n}")); }
+                for (x, y) in [("a", "b"), ("e", "f")] { script.push(format!("rel {x} {y}")); }
+                out.evaluations += 1;
+                let mut cw = Worker::spawn("threads");
+                let ans = cw.call(&format!("contend 6 {} {} {} {salt}", hex(&script.join(";")), if big { 16 } else { 15 }, if big { 3 } else { 2 }));
+                let input = serde_json::json!({"class": "contention", "script": script, "answer": ans});
+                if let Some(reps) = ans.strip_prefix("ok ") {
+                    out.stat_n("c15.contention_repetitions", reps.parse().unwrap_or(0));
+                    out.nontrivial(format!("contend{round}"));
+                } else if let Some(rest) = ans.strip_prefix("diff ") {
+                    let f: Vec<&str> = rest.split(' ').collect();
+                    out.oracle_fail("C15", &format!("while another thread was inside a long operation, `{}` answered `{}` instead of the sequential `{}`", unhex(f[0]), unhex(f[2]).replace('\x1f', " | "), unhex(f[1]).replace('\x1f', " | ")), input);
+                } else {
+                    out.oracle_fail("C15", &format!("concurrent marker operations under contention: {ans}"), input);
                 }
             }
             out.stat_n("worker.restarts", w.restarts);
